@@ -524,9 +524,9 @@ func runAddClosed(c *core.Ctx) {
 	if a.ins != a.add {
 		ins := a.ins
 		stores := map[*ssa.BasicBlock]bool{}
-		for _, mu := range mapUpdatesOn(ins, "recv.evs") {
-			if an.PathOf(mu.Value) == "p:"+ins.Params[len(ins.Params)-1].Name() {
-				stores[mu.Block()] = true
+		for _, st := range cacheStmts(ins, false) {
+			if an.PathOf(st.mu.Value) == "p:"+ins.Params[len(ins.Params)-1].Name() {
+				stores[st.site.Block()] = true
 			}
 		}
 		var insBad []string
@@ -577,6 +577,7 @@ func runDelReqAuth(c *core.Ctx) {
 		return
 	}
 	var delRef *ssa.Function
+	var delRefCall *ssa.Call
 	for _, ci := range calls(a.add) {
 		call, ok := ci.(*ssa.Call)
 		if !ok {
@@ -587,7 +588,7 @@ func runDelReqAuth(c *core.Ctx) {
 			continue
 		}
 		if _, g := kind5Guard(a.add, call.Block()); g && reachesFunc(P, sc, a.del) {
-			delRef = sc
+			delRef, delRefCall = sc, call
 		}
 	}
 	if delRef == nil {
@@ -596,6 +597,25 @@ func runDelReqAuth(c *core.Ctx) {
 	}
 	c.CountFuncs(1)
 	req := "p:" + delRef.Params[1].Name() + ".Pubkey"
+	// the request handed over as a small record built from the event (`d := newDeletion(event)`,
+	// author: event.Pubkey): the requesting author is the field of that record which, at the call in
+	// Add, reads as the added event's Pubkey
+	if typeNameOf(delRef.Params[1].Type()) != "Event" && delRefCall != nil && len(delRefCall.Call.Args) > 1 {
+		req = ""
+		if stt := structUnder(delRef.Params[1].Type()); stt != nil {
+			arg := an.PathOf(delRefCall.Call.Args[1])
+			for i := 0; i < stt.NumFields(); i++ {
+				f := an.FieldName(delRef.Params[1].Type(), i)
+				if an.FieldWriteOnceHook(delRef.Params[1].Type(), i) && an.SimplifyLitFields(arg+"."+f) == evParamOf(a.add)+".Pubkey" {
+					req = "p:" + delRef.Params[1].Name() + "." + f
+				}
+			}
+		}
+		if req == "" {
+			c.Unknown(nil, fname(c, delRef), "removal-author", P.Pos(delRef.Pos()), "the deletion request reaches "+delRef.Name()+" as "+an.PathOf(delRefCall.Call.Args[1])+": which part of it is the requesting author is not recognised")
+			return
+		}
+	}
 	var bad []string
 	n := 0
 	for _, f := range an.WithAnon(delRef) {
@@ -1447,4 +1467,12 @@ func runDropEmpty(c *core.Ctx) {
 	if n == 0 {
 		c.NoAnchor(nil, "size-guarded whole-entry removals from maps of sets")
 	}
+}
+
+func structUnder(t types.Type) *types.Struct {
+	if pt, ok := t.Underlying().(*types.Pointer); ok {
+		t = pt.Elem()
+	}
+	st, _ := t.Underlying().(*types.Struct)
+	return st
 }
